@@ -196,6 +196,11 @@ func ExtractSerializedContainer(data []byte) (int, []byte, error) {
 	_, err := validateSerializedContainer(data)
 	if err == nil {
 		length := binary.LittleEndian.Uint64(data[len(TagBegin) : len(TagBegin)+SerializedContainerLengthSize])
+		// the declared length comes from untrusted data: it must cover the header and fit into data,
+		// callers advance their read position by it
+		if length <= SerializedContainerMinSize || length > uint64(len(data)) {
+			return 0, nil, ErrIncorrectSerializedContainer
+		}
 		return int(length), data, nil
 	}
 
